@@ -23,7 +23,7 @@ Open Scope list_scope.
 Definition er (ok : bool) : gval := VErr (negb ok).
 Definition ctx : gval := VUnit.
 Definition ev_funs : list (string * gfun) :=
-  filter (fun p => negb ((fst p =? "Manager.trySyncNextBlock") || (fst p =? "Manager.handleEmptyDataHash"))) gen_funs.
+  filter (fun p => (fst p =? "Manager.SyncLoop$headerInCh") || (fst p =? "Manager.SyncLoop$dataInCh")) gen_funs.
 Definition is_receiver (e : gval) : bool := match e with VEff x _ => x =? "receiver" | _ => false end.
 Definition run_ev (fs : list (string * gfun)) (globals : env) (name : string) (recv : gval) (args : list gval) : option (list gval * list gval) :=
   match lookup fs name with
@@ -129,7 +129,7 @@ Definition empty_hash_expect (w : hworld) : list gval * list gval :=
   else ([], []).
 
 Lemma go_handleEmptyDataHash : forall w,
-  run_ev gen_funs [("dataHashForEmptyTxs", VIdD 0)] "Manager.handleEmptyDataHash" (hx_mgr w) [ctx; hx_header w] = Some (empty_hash_expect w).
+  run_ev (filter (fun p => (fst p =? "Manager.handleEmptyDataHash")) gen_funs) [("dataHashForEmptyTxs", VIdD 0)] "Manager.handleEmptyDataHash" (hx_mgr w) [ctx; hx_header w] = Some (empty_hash_expect w).
 Proof.
   intros [h dh pok]. unfold empty_hash_expect. destruct pok.
   all: lazy -[N.eqb N.leb N.ltb N.add N.sub sub64 Throttle.sub64]; repeat hstep; reflexivity.
